@@ -188,14 +188,26 @@ def snapshot(conn, keys, has_conn_cb=None):
 
 
 class FakeSock:
+    """optional switch (default off, existing behaviour unchanged): fail_next = k makes the next k sendto calls raise
+    fail_exc (an OSError: ENOBUFS, ENETUNREACH, EAGAIN ...) the way a real socket refuses a datagram; `handed` keeps
+    EVERY byte string handed to sendto, refused or not, as [bytes, accepted?] (never reset: the endpoint SEALED them)"""
+
     def __init__(self):
         self.inbox = []
         self.sent = []
+        self.handed = []
+        self.fail_next = 0
+        self.fail_exc = None
 
     def recvfrom(self, n):
         return self.inbox.pop(0), ("peer", 1)
 
     def sendto(self, d, addr):
+        if self.fail_next > 0:
+            self.fail_next -= 1
+            self.handed.append([bytes(d), False])
+            raise (self.fail_exc or OSError(105, "No buffer space available"))
+        self.handed.append([bytes(d), True])
         self.sent.append(bytes(d))
 
     def close(self):
